@@ -359,6 +359,73 @@ def push_count_paths(n, vec_name):
     return {0}
 
 
+KINDS14 = ("Boolean", "BooleanGroup", "BooleanExpression", "Cast", "Field", "Float", "Identifier", "Integer", "Match", "Matrix", "Negate", "Nested", "Null", "Search")
+
+
+def _shape(kind):
+    import tri
+    E = lambda v, *f: ("ctor", "Expression", v, list(f))
+    leaf = E("Null")
+    return {
+        "Boolean": E("Boolean", True), "BooleanGroup": E("BooleanGroup", ("ctor", "BoolSym", "And", []), ("list", [])), "BooleanExpression": E("BooleanExpression", leaf, ("ctor", "BoolSym", "Equal", []), leaf),
+        "Cast": E("Cast", ("lit", "f"), ("ctor", "ModSym", "Int", [])), "Field": E("Field", ("lit", "f")), "Float": E("Float", 1), "Identifier": E("Identifier", ("lit", "X")), "Integer": E("Integer", 1),
+        "Match": E("Match", ("ctor", "Match", "All", []), leaf), "Matrix": E("Matrix", ("list", []), ("list", [])), "Negate": E("Negate", leaf), "Nested": E("Nested", ("lit", "f"), leaf), "Null": leaf,
+        "Search": E("Search", ("ctor", "Search", "Any", []), ("lit", "f"), False),
+    }[kind]
+
+
+def matrix_pass_agreement(rep, F, L, mf):
+    """matrix() looks at every and-member of the group twice: once to decide whether its conjuncts count towards the columns,
+    once to decide whether it becomes a row.  Both decisions are `valid = false` filters over the conjuncts; they must accept exactly
+    the same conjunct shapes, otherwise a member becomes a row although some of its fields never became columns (its conjuncts are
+    dropped) or the reverse.  The two filters are evaluated on all 14 x 14 comparison shapes and on the 14 node kinds."""
+    import tri
+    loops = []
+    for n, path in walk_with_path(mf.body):
+        if n.get("k") != "For":
+            continue
+        assigns = [x for x in walk(n["body"]) if x.get("k") == "Assign" and lit(x["rhs"]) == ("bool", False) and peel(x["lhs"]).get("k") == "Var"]
+        inner = [x for x in walk(n["body"]) if x.get("k") == "For"]
+        if assigns and not inner:
+            loops.append((n, peel(assigns[0]["lhs"])["id"]))
+    if len(loops) != 2:
+        rep.lost("L-MATRIX", "L-MATRIX/pass-agreement", "the two validity filters over the conjuncts of an and-member", "%d filter loops" % len(loops))
+        L.ok["L-MATRIX"] = False
+        return
+    calls = {"::contains_key": lambda mo, n, env: False, "::insert": lambda mo, n, env: (), "Clone::clone": lambda mo, n, env: mo.ev(n["args"][0], env),
+             "::entry": lambda mo, n, env: tri.OPAQUE, "::or_insert": lambda mo, n, env: tri.OPAQUE}
+    tables = []
+    try:
+        for loop, vid in loops:
+            acc = set()
+            el = strip_ref(q.loop_over(loop)[1])
+            shapes = [(k, _shape(k)) for k in KINDS14 if k != "BooleanExpression"]
+            E = lambda v, *f: ("ctor", "Expression", v, list(f))
+            for a in KINDS14:
+                for b in KINDS14:
+                    shapes.append(("%s cmp %s" % (a, b), E("BooleanExpression", _shape(a), ("ctor", "BoolSym", "Equal", []), _shape(b))))
+            for name, sh in shapes:
+                mo = tri.Model(lambda i: None, calls=calls)
+                env = {vid: True}
+                if el.get("k") != "Bind":
+                    raise tri.Unrecognised("loop pattern")
+                env[el["id"]] = sh
+                try:
+                    mo.ev(loop["body"], env)
+                except (tri.Brk, tri.Cont):
+                    pass
+                if env.get(vid) is True:
+                    acc.add(name)
+            tables.append(acc)
+    except tri.Unrecognised as e:
+        rep.lost("L-MATRIX", "L-MATRIX/pass-agreement", "validity filter inside the model language", str(e)[:200])
+        L.ok["L-MATRIX"] = False
+        return
+    diff = sorted(tables[0] ^ tables[1])
+    chk(rep, L, "L-MATRIX", not diff and len(tables[0]) >= 8, "L-MATRIX/pass-agreement", mf.sp,
+        "the column-counting pass and the row-building pass accept exactly the same conjunct shapes (%d of 209)" % len(tables[0]), "accepted by only one pass: " + ", ".join(diff[:8]))
+
+
 def lemma_matrix(rep, F, L):
     rep.describe("L-MATRIX", "optimiser::matrix pushes exactly one cell per column into every row (zero-push arms are unreachable given what the lookup map holds); cells refer only to their synthetic key; the solver's cache has columns.len() slots and is indexed by the row's enumerate index")
     mf = F.fn("optimiser::matrix")
@@ -367,7 +434,9 @@ def lemma_matrix(rep, F, L):
         L.ok["L-MATRIX"] = False
         return
     # row-building loops
-    loops = [(n, p) for n, p in walk_with_path(mf.body) if n.get("k") == "For" and show(n["iter"]) == "Iterator::enumerate(<impl [T]>::iter(Deref::deref(columns)))"]
+    mats0 = [n for n in walk(mf.body) if n.get("k") == "Adt" and n["adt"] == "parser::Expression" and n["variant"] == "Matrix"]
+    columns_id = q.var_id({f_["name"]: f_["e"] for f_ in mats0[0]["fields"]}["0"]) if len(mats0) == 1 else None
+    loops = [(n, p) for n, p in walk_with_path(mf.body) if n.get("k") == "For" and columns_id is not None and q.loop_over(n)[0] == columns_id and q.loop_over(n)[2] is not None]
     chk(rep, L, "L-MATRIX", len(loops) == 5, "L-MATRIX/row-loops", mf.sp, "five row-building loops over columns.iter().enumerate()", str(len(loops)))
     # what lookup can hold
     inserted = set()
@@ -403,6 +472,7 @@ def lemma_matrix(rep, F, L):
                 okv = False
             chk(rep, L, "L-MATRIX", okv, "L-MATRIX/lookup-insert#%d" % ninsert, n["sp"], "lookup only receives (Cast|Field cmp literal), Nested or Search conjuncts", "%s %s %s" % (val, shape, sorted(lefts)))
     chk(rep, L, "L-MATRIX", inserted == {"BooleanExpression:Cast", "BooleanExpression:Field", "Nested", "Search"}, "L-MATRIX/lookup-shapes", mf.sp, "shapes held by lookup", str(sorted(inserted)))
+    matrix_pass_agreement(rep, F, L, mf)
     # the scratch map is a fresh one for every group member: a member that is rejected half way must not leave conjuncts behind for the next row
     lids = {q.base_var(n["args"][0]) for n in walk(mf.body) if call_is(n, "::insert") and "HashMap<" in str(peel(n["args"][0]).get("ty", "")) and call_is(peel(n["args"][2]), "Clone::clone")}
     lids &= {q.base_var(n["args"][0]) for n in walk(mf.body) if call_is(n, "::remove") and "HashMap<" in str(peel(n["args"][0]).get("ty", ""))}
@@ -528,7 +598,7 @@ def lemma_matrix(rep, F, L):
         ln = ln[:2] if ln else None
         chk(rep, L, "L-MATRIX", ok, "L-MATRIX/cache-size/" + fname, f.sp, "cache is created with exactly columns.len() slots and never grows or shrinks afterwards", "len=%s columns=%s caches=%s" % (ln, sorted(colids), sorted(map(str, cids))))
         chk(rep, L, "L-MATRIX", elem == "Option::None", "L-MATRIX/cache-only-grows-at-init/" + fname, f.sp, "the slots start empty (None)", elem)
-        rows = [n for n in walk(f.body) if n.get("k") == "For" and show(n["iter"]) == "Iterator::enumerate(<impl [T]>::iter(Deref::deref(row)))" and pat_str(n["pat"]) == "($i, $expression)"]
+        rows = q.row_cell_loops(f)
         want = 2 if fname == "solver::solve_expression" else 1
         chk(rep, L, "L-MATRIX", len(rows) == want, "L-MATRIX/row-index/" + fname, f.sp, "cache/columns are indexed by the row's own enumerate index", str(len(rows)))
     cf = F.fn("<solver::Cache<'_> as document::Document>::find")
@@ -538,7 +608,8 @@ def lemma_matrix(rep, F, L):
             "Cache::find indexes by the key's first char (inverse of char::from_u32(column index).to_string())", s[:100])
     # the Matrix node is built once, from (columns, rows)
     mats = [n for name, f in F.fns.items() if f.thir is not None and not name.startswith("<") for n in walk(f.body) if n.get("k") == "Adt" and n["adt"] == "parser::Expression" and n["variant"] == "Matrix"]
-    chk(rep, L, "L-MATRIX", len(mats) == 1 and show(mats[0]) == "Expression::Matrix(columns, rows)", "L-MATRIX/single-ctor", mf.sp, "Expression::Matrix is constructed in one place from (columns, rows)", "; ".join(show(x) for x in mats))
+    okm = len(mats) == 1 and all(peel(f_["e"]).get("k") == "Var" for f_ in mats[0]["fields"])
+    chk(rep, L, "L-MATRIX", okm, "L-MATRIX/single-ctor", mf.sp, "Expression::Matrix is constructed in one place from (columns, rows)", "; ".join(show(x) for x in mats))
 
 
 def lemma_lockstep(rep, F, L):
@@ -622,9 +693,15 @@ def make_rules(F, L):
         if s.fn == "<solver::Cache<'_> as document::Document>::find":
             return ("D-MATRIX", "cache documents only see one-character synthetic keys below columns.len() (lemma L-MATRIX, PROV-MATRIX)")
         if s.fn in ("solver::solve_expression", "solver::match_all", "solver::match_of") and s.kind == "index":
-            if re.fullmatch(r"(Index::index|IndexMut::index_mut)\((cache|columns), i\)", sh):
-                fors = [e for e in q.context(s.path, s.node) if e[0] == "for" and show(e[2]) == "Iterator::enumerate(<impl [T]>::iter(Deref::deref(row)))"]
-                if fors:
+            n_ = s.node
+            f_ = F.fns[s.fn]
+            if n_.get("k") == "Call" and len(n_["args"]) == 2:
+                cols_, _, _ = q.matrix_roles_solver(f_)
+                cache_ids = {q.base_var(c_["fields"][0]["e"]) for c_ in walk(f_.body) if c_.get("k") == "Adt" and c_["adt"].endswith("solver::Cache")}
+                target = q.base_var(n_["args"][0])
+                iv = q.var_id(n_["args"][1])
+                inrow = [idx for loop, idx in q.row_cell_loops(f_) if idx == iv and q.contains(loop["body"], n_)]
+                if target is not None and (target in cols_ or target in cache_ids) and inrow:
                     return ("D-MATRIX", "i enumerates a row, rows have one cell per column, cache has one slot per column (lemma L-MATRIX)")
         return None
 
